@@ -88,6 +88,17 @@ class NPShim:
         return _np.sign(x)
 
     @staticmethod
+    def isclose(a, b, rtol=1e-05, atol=1e-08, equal_nan=False):
+        """numpy's documented meaning: |a - b| <= atol + rtol * |b| (a symbolic comparison = a decision)"""
+        if _has_sym(a) or _has_sym(b):
+            if isinstance(a, _np.ndarray) or isinstance(b, _np.ndarray):
+                return _np.frompyfunc(lambda x, y: NPShim.isclose(x, y, rtol, atol), 2, 1)(a, b)
+            d = a - b
+            bound = atol + rtol * (real.abs_s(b) if isinstance(b, S) else abs(b))
+            return (real.abs_s(d) if isinstance(d, S) else abs(d)) <= bound
+        return _np.isclose(a, b, rtol=rtol, atol=atol, equal_nan=equal_nan)
+
+    @staticmethod
     def isfinite(x):
         if isinstance(x, _np.ndarray) and x.dtype == object:
             return _np.ones(x.shape, dtype=bool)
